@@ -122,7 +122,20 @@ def check_model_pair(mp: onnx.ModelProto, spec, tname, tf, stats, loop_bound=3, 
             rec["side"]["checker"] = str(e)[:300] if orig_ok else None
         s0, s1 = signature(mp), signature(new)
         rec["side"]["signature_changed"] = None if (s0[0] == s1[0] and s0[1] == s1[1]) else f"{s0[:2]} -> {s1[:2]}"[:300]
-        rec["side"]["initializer_inputs_lost"] = [n for n in s0[2] if n not in s1[2]]
+        lost = [n for n in s0[2] if n not in s1[2]]
+        used_new = set()
+
+        def _walk(g):
+            for nd in g.node:
+                used_new.update(nd.input)
+                for a in nd.attribute:
+                    if a.type == onnx.AttributeProto.GRAPH:
+                        _walk(a.g)
+        _walk(new.graph)
+        used_new.update(o.name for o in new.graph.output)
+        # a default that is dropped because the input became unused vs. a default folded into the graph
+        rec["side"]["initializer_inputs_lost"] = [n for n in lost if n in used_new]
+        rec["side"]["unused_initializer_input_defaults_dropped"] = [n for n in lost if n not in used_new]
     try:
         inputs = {n: fresh(n, sh, DT(dt)) for n, dt, sh in spec}
         m1, m2 = ir.from_proto(mp), ir.from_proto(new)
@@ -200,12 +213,20 @@ def corpus(tier: str, seed: int):
 # ------------------------------------------------------------------ diagnosis predicates for known findings
 def _const_arrays(mp):
     from onnx import numpy_helper as nh
-    consts = {t.name: nh.to_array(t) for t in mp.graph.initializer}
-    for n in mp.graph.node:
-        if n.op_type == "Constant":
+    consts = {}
+
+    def walk(g):
+        for t in g.initializer:
+            consts[t.name] = nh.to_array(t)
+        for n in g.node:
+            if n.op_type == "Constant":
+                for a in n.attribute:
+                    if a.name == "value":
+                        consts[n.output[0]] = nh.to_array(a.t)
             for a in n.attribute:
-                if a.name == "value":
-                    consts[n.output[0]] = nh.to_array(a.t)
+                if a.type == onnx.AttributeProto.GRAPH:
+                    walk(a.g)
+    walk(mp.graph)
     return consts
 
 
@@ -257,7 +278,11 @@ def diag_flatten_zero_dim(orig, new):
     return _count_nodes(orig, lambda n: n.op_type == "Flatten") > 0 and _count_nodes(new, lambda n: n.op_type == "Reshape") > 0
 
 
-DIAG = {"flatten_reshape_zero_dim": diag_flatten_zero_dim, "eps_identity": diag_eps_identity, "minmax_initializer_input": diag_minmax_initializer_input,
+def diag_unused_initializer_input_dropped(orig, new):
+    return True  # decided from the side record in c03.aggregate (detail text)
+
+
+DIAG = {"unused_initializer_input_dropped": diag_unused_initializer_input_dropped, "flatten_reshape_zero_dim": diag_flatten_zero_dim, "eps_identity": diag_eps_identity, "minmax_initializer_input": diag_minmax_initializer_input,
         "widens_accepted_inputs": diag_widens_accepted_inputs}
 
 
